@@ -41,11 +41,16 @@ from vf import par, vloop, vloopx
 NEEDS_SERVICES = False
 
 MODES = ('raise', 'raise_cancel', 'return_exc', 'top_gather', 'top_gather_cancel', 'online')
+ALL_MODES = MODES + ('online_feeder',)
 ALL_KINDS = ('ok', 'raise', 'baseexc', 'selfcancel', 'innercancel')
 # bodies that need time to stop: when CancelledError is thrown in they take w further yields (try/finally clean-up) and then
 # re-raise it ('wind<w>') or swallow it and return their index ('swallow<w>'); uncancelled they behave like 'ok'
 WIND = {'wind1': (1, False), 'wind2': (2, False), 'swallow1': (1, True)}
-OKLIKE = ('ok',) + tuple(WIND)
+# mode 'online_feeder': a chain of jobs fed one at a time by a coroutine that is NOT a pool task: job i publishes its
+# result on a queue ('pub<w>': then needs w more yields to finish), the feeder reacts with pool.call(job i+1), while the
+# caller has already left the `async with` body and sits in OnlineBoundedGather2.__aexit__
+PUB = {'pub0': 0, 'pub1': 1}
+OKLIKE = ('ok',) + tuple(WIND) + tuple(PUB)
 
 
 def _waiter_name(f):
@@ -82,7 +87,7 @@ def make_run_one(mode, P, pfs, cancel_caller, reduce=True):
     n = len(pfs)
     work_names = {f't-{i + 1}' for i in range(n)}
     top = mode.startswith('top_gather')
-    family = {'raise_cancel': 'cancel_on_error', 'top_gather_cancel': 'cancel_on_error', 'online': 'online',
+    family = {'raise_cancel': 'cancel_on_error', 'top_gather_cancel': 'cancel_on_error', 'online': 'online', 'online_feeder': 'online_feeder',
               'return_exc': 'return_exceptions'}.get(mode)
 
     def run_one(chooser):
@@ -90,6 +95,7 @@ def make_run_one(mode, P, pfs, cancel_caller, reduce=True):
         loop.anon_prefix = 't'
         loop.ext_mode = True  # FIFO ready queue + environment-completed external events (see vloopx)
         ph = [('new', 0)] * n
+        feed_q = asyncio.Queue()
         started = []
         never_started = set()
         in_body = set()
@@ -152,6 +158,13 @@ def make_run_one(mode, P, pfs, cancel_caller, reduce=True):
                             ph[i] = ('done', 'innercancel')
                         raise
                     raise RuntimeError('C20 harness: inner future completed without being cancelled')
+                if kind in PUB:
+                    if i + 1 < n:
+                        feed_q.put_nowait(i)  # wakes the feeder before this task's pool bookkeeping runs
+                    for j in range(PUB[kind]):
+                        ph[i] = ('post', j + 1)
+                        suspends_again(i)
+                        await vloopx.ext_yield()
                 ph[i] = ('done', 'ok')
                 return i
             except asyncio.CancelledError:
@@ -200,7 +213,7 @@ def make_run_one(mode, P, pfs, cancel_caller, reduce=True):
                 st['running'] -= 1
 
         def helper_tasks():
-            return [t for t in loop._vf_tasks if t.get_name() not in ('main', 'caller', 'ctl') and not t.get_name().startswith('side')]
+            return [t for t in loop._vf_tasks if t.get_name() not in ('main', 'caller', 'ctl', 'feeder') and not t.get_name().startswith('side')]
 
         def by_name(ts, nm):
             for t in ts:
@@ -222,9 +235,10 @@ def make_run_one(mode, P, pfs, cancel_caller, reduce=True):
             pend = [t for t in helper_tasks() if not t.done() and t.get_name() in work_names]
             st['leftover'] = tuple(('cancel-requested' if t.cancelling() else 'never-cancelled') for t in pend)
             if kind == 'returned':
-                st['exit'] = ('returned', len(val) if mode == 'online' else repr(val)[:80])
+                st['exit'] = ('returned', len(val) if mode.startswith('online') else repr(val)[:80])
                 if pend:
-                    fail(f'{mode}:task-pending-after-normal-return', f'{len(pend)} task(s) still pending after the helper returned')
+                    fail(f'{mode}:task-pending-after-normal-return', f'mode {mode}, pfs {pfs}, P={P}: {len(pend)} task(s) the helper handed out '
+                         f'({[t.get_name() for t in pend]}) are still pending after it returned normally; pf states {ph}')
                 if mode == 'return_exc':
                     exp = [(None, ('PfError', i)) if pfs[i][0] == 'raise' else (None, ('PfBase', i)) if pfs[i][0] == 'baseexc'
                            else (None, ('CancelledError',)) if pfs[i][0] in CANCEL_KINDS else (i, None) for i in range(n)]
@@ -234,6 +248,10 @@ def make_run_one(mode, P, pfs, cancel_caller, reduce=True):
                     if got != exp and not cancelled_caller:
                         sig = 'results-out-of-order' if got is not None and sorted(map(repr, got)) == sorted(map(repr, exp)) else 'exception-not-returned-in-place'
                         fail(sig, f'return_exceptions: expected {exp}, got {got if got is not None else val!r}')
+                elif mode == 'online_feeder':
+                    got = [t.result() if t.done() and not t.cancelled() else 'n/a' for t in val]
+                    if not pend and got != list(range(n)):
+                        fail('online_feeder:chain-incomplete-at-exit', f'pool exited normally with results {got} for a chain of {n} jobs; pfs {pfs}')
                 elif mode == 'online':
                     got = [t.result() if t.done() and not t.cancelled() else 'n/a' for t in val]
                     exp = [i if pfs[i][0] in OKLIKE else None for i in range(n)]
@@ -284,6 +302,21 @@ def make_run_one(mode, P, pfs, cancel_caller, reduce=True):
                 return await U.bounded_gather(*fns, parallelism=P)
             if mode == 'top_gather_cancel':
                 return await U.bounded_gather(*fns, parallelism=P, cancel_on_error=True)
+            if mode == 'online_feeder':
+                handed = []
+
+                async def feeder(pool):
+                    for _ in range(n - 1):
+                        i = await feed_q.get()
+                        try:
+                            handed.append(pool.call(fns[i + 1]))
+                        except U.PoolShutdownError:
+                            return
+
+                async with U.OnlineBoundedGather2(sema) as pool:
+                    own['feeder'] = asyncio.get_running_loop().create_task(feeder(pool), name='feeder')
+                    handed.append(pool.call(fns[0]))
+                return handed
             async with U.OnlineBoundedGather2(sema) as pool:
                 return [pool.call(f) for f in fns]
 
@@ -307,7 +340,7 @@ def make_run_one(mode, P, pfs, cancel_caller, reduce=True):
                 kind, val = await guarded(sema, fns)
                 at_exit(kind, val)
                 st['caller'] = 'after-helper'
-                if nested and not cancel_caller:
+                if nested and not cancel_caller and mode != 'online_feeder':
                     # second call by the same caller, no exploration: run FIFO until the first call's tasks are gone
                     loop.ext_auto = True
                     for _ in range(200):
@@ -358,7 +391,7 @@ def make_run_one(mode, P, pfs, cancel_caller, reduce=True):
             ht = helper_tasks()
             queued = tuple(nm for nm in started if nm not in in_body and not by_name(ht, nm).done())
             semas = tuple((getattr(sm, '_value', None), tuple(_waiter_name(f) for f in (getattr(sm, '_waiters', None) or ()))) for sm in semas_made)
-            return (queued, tuple(sorted(never_started)), semas, tuple(ph), st['running'], st['maxrun'], tuple(st['fails']), st['caller'], st['ctl'], st['exit'], st['leftover'],
+            return (queued, tuple(getattr(feed_q, '_queue', ())), tuple(sorted(never_started)), semas, tuple(ph), st['running'], st['maxrun'], tuple(st['fails']), st['caller'], st['ctl'], st['exit'], st['leftover'],
                     st['viol'] is None, tuple((t.get_name(), t.cancelling(), vloopx.pc(t)) for t in ht),
                     tuple(sorted((i, t.done()) for i, t in side.items())),
                     vloopx.pc(own['caller']) if 'caller' in own else None, own['caller'].cancelling() if 'caller' in own else 0)
@@ -423,6 +456,8 @@ def _explore_config(cfg):
             bump('a-pf-never-started', c)
         if len(fails) >= 2:
             bump('two-or-more-failures', c)
+        if mode == 'online_feeder' and ex and ex[0] == 'returned' and all(p_ == ('done', 'ok') for p_ in ph):
+            bump(f'feeder-chain-of-{len(ph)}-completed', c)
         if stuck:
             bump('caller-never-finished(not judged)', c)
     best = {}
@@ -434,7 +469,7 @@ def _explore_config(cfg):
 
 def _size(cfg):
     mode, P, pfs, cc = cfg
-    return (len(pfs), int(cc), sum(k + WIND.get(kd, (0,))[0] for kd, k in pfs), sum(1 for kd, _ in pfs if kd != 'ok'), P, MODES.index(mode), pfs)
+    return (len(pfs), int(cc), sum(k + WIND.get(kd, (0,))[0] for kd, k in pfs), sum(1 for kd, _ in pfs if kd != 'ok'), P, ALL_MODES.index(mode), pfs)
 
 
 def configs(tier):
@@ -479,6 +514,11 @@ def configs(tier):
                 if any(kd in WIND for kd, _ in pfs)]
         fam += [(pfs, (1, 2), (False, True)) for pfs in itertools.product(wind_t + other_t, repeat=3)
                 if sum(1 for kd, _ in pfs if kd in WIND) >= 2]
+    pub_t = [(kd, k) for kd in PUB for k in (0, 1)]
+    for depth in ((2, 3) if tier == 'quick' else (2, 3, 4)):
+        for pfs in itertools.product(pub_t, repeat=depth):
+            for P in (1, 2):
+                out.append(('online_feeder', P, tuple(pfs), False))
     for pfs, Ps, ccs in fam:
         for P in Ps:
             for mode in MODES:
@@ -550,7 +590,9 @@ def check(tier, seed, procs):
         'executions_by_feature': dict(sorted(cnt.items())),
         'deviation_bound': 'unbounded (every order of external-event completions over a FIFO ready queue, state-hash pruned)',
         'bounds': ('modes ' + '/'.join(MODES) + '; ' +
-                   ('plus bodies that take 1-2 further yields to stop once cancelled (re-raising or swallowing the cancellation): 2 pfs in all '
+                   (f'plus OnlineBoundedGather2 fed by a non-pool coroutine (chain of 2-{3 if tier == "quick" else 4} jobs, each 0..1 yields before and '
+                    'after publishing its result, P 1-2, no failure, no cancellation); ') + (
+                    'plus bodies that take 1-2 further yields to stop once cancelled (re-raising or swallowing the cancellation): 2 pfs in all '
                     'combinations with returns/raises, 3 pfs (two such bodies + one more) with a cancelled caller; and: '
                     if tier == 'quick' else
                     'plus bodies that take 1-2 further yields to stop once cancelled (re-raising or swallowing): 2 pfs (P 1-3), 3 pfs with >= 2 such '
@@ -565,7 +607,7 @@ def check(tier, seed, procs):
                     '4 pfs (returns|raises, 0..1 yields, <=2 failing; caller cancellation only for cancel_on_error and return_exceptions modes); '
                     'parallelism 1-3 (1-2 for the 0..2-yield 3-pf family); caller cancelled at any step or not')),
     }
-    need = ['caller-cancelled:before-call', 'caller-cancelled:in-helper', 'caller-cancelled:in-helper:wakeup-pending', 'caller-cancelled:after-exit',
+    need = ['feeder-chain-of-3-completed', 'caller-cancelled:before-call', 'caller-cancelled:in-helper', 'caller-cancelled:in-helper:wakeup-pending', 'caller-cancelled:after-exit',
             'helper-returned', 'helper-raised', 'bound-reached', 'a-body-was-cancelled', 'a-pf-never-started', 'two-or-more-failures']
     missing = [k for k in need if not cnt.get(k)]
     return {
